@@ -101,6 +101,9 @@ type receiver struct {
 	contentHasher  ContentHasher
 	orderValidator Validator
 	hlValidator    Hardlinks
+	// createdLinks tracks the entries that are really created in dest: with a
+	// metadata-only selector, entries that are only listed are not among them
+	createdLinks Hardlinks
 }
 
 type dynamicWalker struct {
@@ -269,6 +272,12 @@ func (r *receiver) run(ctx context.Context) error {
 				}
 				if err := r.hlValidator.HandleChange(ChangeKindAdd, cp.path, &StatInfo{cp.stat}, nil); err != nil {
 					return err
+				}
+				if !metaOnly {
+					// a hard link can only be made to an entry that was created, not to one that is only listed
+					if err := r.createdLinks.HandleChange(ChangeKindAdd, cp.path, &StatInfo{cp.stat}, nil); err != nil {
+						return err
+					}
 				}
 				if metadataTransfer {
 					parent := filepath.Dir(cp.path)
